@@ -30,7 +30,13 @@ def confirm(pid):
         sh('git checkout -- mininec', wt)
         tail = [l for l in ot.strip().split('\n') if ' passed' in l or ' failed' in l][-1:] or ['?']
         failed = re.findall(r'FAILED (\S+)', ot)
-        ok_tests = all('test_vertical_ideal_ground_near' in f for f in failed) and '171 passed' in tail[0]
+        # test_timing asserts wall-clock bounds and fails under CPU load: re-run it alone
+        if any('test_timing' in f for f in failed):
+            rc2, o2 = sh('git apply %s; %s -m pytest -q -p no:cacheprovider test -k test_timing; git checkout -- mininec' % (diff, PY), wt)
+            if '1 passed' in o2:
+                failed = [f for f in failed if 'test_timing' not in f]
+                tail = [tail[0] + ' (test_timing passes when run alone)']
+        ok_tests = all('test_vertical_ideal_ground_near' in f for f in failed) and ('171 passed' in tail[0] or '170 passed' in tail[0])
         verdict = 'confirmed' if (rc0 == 0 and rc1 != 0 and ok_tests) else 'rejected'
         info = dict(demo_rc_pristine=rc0, demo_rc_mutant=rc1, tests=tail[0], failed=failed, verdict=verdict)
         if verdict == 'confirmed':
